@@ -246,6 +246,10 @@ def run_cli(
         raise ValueError(spelling)
 
     env = {k: v for k, v in os.environ.items() if k not in {"PYTHONPATH", "PYTHONHASHSEED", "VERIF_REEXEC"}}
+    # keep only path entries that provide the package under test (sensitivity runs use a scratch copy of /repo/src)
+    override = [p for p in os.environ.get("PYTHONPATH", "").split(os.pathsep) if p and os.path.isdir(os.path.join(p, "safeds_stubgen"))]
+    if override:
+        env["PYTHONPATH"] = os.pathsep.join(override)
     if hashseed is not None:
         env["PYTHONHASHSEED"] = hashseed
     env["PYTHONDONTWRITEBYTECODE"] = "1"
